@@ -104,5 +104,19 @@ Definition err_ok (m : meta) (w : pass) : bool :=
   | None => true
   | Some N => match err_bound w with Some k => Nat.leb k N | None => false end
   end.
+(* non-vacuity of the computed set of final states: circuits with and without measurements / placeholders all
+   reach the end (a tree whose every branch raises would satisfy any postcondition) *)
+Definition c01_nonvac (m : meta) (X : sset) : bool :=
+  match m_kind m with
+  | KCircuit =>
+      existsb (fun s => match ms s with MBack => true | _ => false end) X
+      && existsb (fun s => match ms s with MNone => true | _ => false end) X
+      && existsb noph X && existsb (fun s => negb (noph s)) X
+      && forallb (fun w => existsb (fun s => wle w (wd s)) X) [W1; W2; W3; W4]
+  | _ => match X with [] => false | _ => true end
+  end.
 Definition c01_check (m : meta) (w : pass) : bool :=
-  wf_establishes (m_cfg m) w (full_pre m) c01_post && err_ok m w.
+  match exec (m_cfg m) FUEL w (full_pre m) with
+  | Some X => forallb c01_post X && c01_nonvac m X
+  | None => false
+  end && err_ok m w.
